@@ -32,8 +32,11 @@ def main():
     out = {'name': name, 'ran': []}
     try:
         r = sh(f'git -C {wt} apply {d}/patch.diff')
-        if r.returncode:
-            print('PATCH DOES NOT APPLY', r.stderr); return 2
+        if r.returncode:       # the tree has moved on (hook / fix: commits) since the seed was made: three-way merge against the blobs the patch names
+            r = sh(f'git -C {wt} apply --3way {d}/patch.diff')
+            if r.returncode or sh(f'git -C {wt} diff --name-only --diff-filter=U').stdout.strip():
+                print('PATCH DOES NOT APPLY', r.stderr); return 2
+            sh(f'git -C {wt} reset -q')
         if confirm:
             t0 = time.time()
             r = sh(f'cd {wt} && cargo test --workspace --no-fail-fast --offline 2>&1 | grep -E "^test result"')
